@@ -264,6 +264,21 @@ def gen_c02(tier, seed):
                     regsx = dict(s3[2]); regsx.update(d4[2])
                     emit(base + sfx, [lit(width) if r.random() < 0.7 else immw(width | 0xe0), lit(off), s3[1], d4[1]], regsx,
                          s3[3] + d4[3], base, readback=d4[4][1] if d4[4][0] == 'm' else None)
+    # zero divisors, systematically: every divide / remainder opcode x every source form x all 16 condition-code states
+    # (the fault must change nothing, the condition codes included)
+    for sfx, sz in SIZES.items():
+        for base in ('DIV', 'MOD'):
+            for form in ('2', '3'):
+                for fl in allflags():
+                    for k in range(3):
+                        s = src_forms(r, sz, 0, 0)[k % len(src_forms(r, sz, 0, 0))]
+                        d = r.choice(dst_forms(r, sz, pick(sz), 1))
+                        regs = rnd_regs(r, psw_of(fl))
+                        regs.update(s[2]); regs.update(d[2])
+                        mem = s[3] + d[3]
+                        opsx = [s[1], d[1]] if form == '2' else [s[1], r.choice(src_forms(r, sz, pick(sz), 2))[1], d[1]]
+                        ops = setup_ops(regs, mem, ins(OP[base + sfx + form], *opsx) + [0x70, 0x70]) + ['st']
+                        g.add(ops, 'zero-divisor')
     return g.result('Every data-processing opcode (CLR MOV MCOM MNEG INC DEC TST BIT CMP, 2- and 3-operand ADD SUB MUL DIV MOD '
                     'AND OR XOR, ARS LLS ALS LRS ROT, INSF EXTF) at B/H/W x register / memory / immediate operand forms x '
                     'boundary-value pairs and random values x random initial condition codes x all shift counts 0-31 x all '
@@ -670,7 +685,8 @@ class Prog:
                 code += ins(OP['MOVW'], immw(r.randrange(1 << 32)), reg(reg_no))
                 self.steps += 1
             elif k == 'push':
-                src = r.choice([immw(r.randrange(1 << 32)), reg(r.randrange(9)), lit(r.randrange(64))])
+                src = r.choice([immw(r.randrange(1 << 32)), reg(r.randrange(9)), lit(r.randrange(64)),
+                                ex(r.choice(list(ETYPE)), reg(r.randrange(9))), ex(r.choice(list(ETYPE)), absa(DATA + 4 * r.randrange(8)))])
                 code += ins(OP['PUSHW'], src)
                 self.steps += 1
                 code += self.block(depth - 1, kinds)
